@@ -33,15 +33,6 @@ namespace Dashu.Model
 
 -- ---------------------------------------------------------------- multiplication
 
-/-- `mul_word_in_place_with_carry`: words = words * rhs + carry; returns carry word.
-    (`rhs == 0` returns 0 *without touching the words*; callers never pass 0.) -/
-def mulWordInPlace (W : Nat) : List Nat → Nat → Nat → List Nat × Nat
-  | [], _, c => ([], c)
-  | a :: as, rhs, c =>
-    let v := a * rhs + c
-    let (r, c') := mulWordInPlace W as rhs (v / 2 ^ W)
-    (v % 2 ^ W :: r, c')
-
 /-- `shl_in_place` by `shift < W` bits; returns the carry word -/
 def shlInPlace (W : Nat) : List Nat → Nat → Nat → List Nat × Nat
   | [], _, c => ([], c)
